@@ -19,6 +19,7 @@ import CE.Cte.ArrEngine
 import CE.Marshal.Struct
 import CE.Marshal.Graph
 import CE.Cte.Escape
+import CE.Cbe.Cost
 /-
   Line-protocol driver: executes the model's definitions on the operations the Go
   harness ran on the implementation.  Input line:  kind \t id \t op \t arg... \t => \t expected
@@ -462,8 +463,20 @@ def cteEscape (args : List String) : String :=
       | some str => Hex.encode (String.ofList (Cte.Escape.escape Cte.Escape.tableSafe str.toList)).toUTF8.toList
   | _ => "BADINPUT"
 
+/-- COST.READ count docLen sched(comma list, "-" = empty) → "OK|EOF cap" : one ReadBytes(count) on a fresh reader -/
+def costRead (args : List String) : String :=
+  match args with
+  | [c, l, sch] =>
+    match c.toNat?, l.toNat? with
+    | some count, some docLen =>
+      let sched := if sch == "-" then [] else (sch.splitOn ",").filterMap String.toNat?
+      let o := CE.Cbe.Cost.readInto count CE.Cbe.Cost.RS.init docLen sched
+      s!"{if o.ok then "OK" else "EOF"} {o.s.len}"
+    | _, _ => "UNMODELLED"
+  | _ => "UNMODELLED"
+
 def ops : List (String × (List String → String)) :=
-  [("CBE.ENC", cbeEnc), ("CBE.DEC", cbeDec), ("CANON.EQ", canonEq), ("CANON.DIFF", canonDiff), ("RULES", rulesOp), ("WF.REL", wfRel), ("FWD.EQ", fwdEq), ("MEASURE", measureOp), ("CBE.MINLEN", minLenOp), ("API.DETECT", apiDetect), ("API.VERSION", apiVersion), ("READER.ALL", readerAll), ("READER.FAULT", readerFault), ("TREE.EQ", treeEq), ("ARR.TOLE", arrToLE), ("ARR.FROMLE", arrFromLE), ("CONV", convOp), ("CTE.ARRFMT", cteArrFmt), ("CTE.ARRPARSE", cteArrParse), ("CTE.ENGINE", cteEngine), ("CTE.ESCAPE", cteEscape), ("GRAPH.EMIT", graphEmit), ("STRUCT.EMIT", structEmit), ("STRUCT.LOOKUP", structLookup), ("LIT.NUM", litNum), ("LIT.ELEM", litElem), ("LIT.STR", litStr)]
+  [("CBE.ENC", cbeEnc), ("CBE.DEC", cbeDec), ("CANON.EQ", canonEq), ("CANON.DIFF", canonDiff), ("RULES", rulesOp), ("WF.REL", wfRel), ("FWD.EQ", fwdEq), ("MEASURE", measureOp), ("CBE.MINLEN", minLenOp), ("API.DETECT", apiDetect), ("API.VERSION", apiVersion), ("READER.ALL", readerAll), ("READER.FAULT", readerFault), ("TREE.EQ", treeEq), ("ARR.TOLE", arrToLE), ("ARR.FROMLE", arrFromLE), ("CONV", convOp), ("CTE.ARRFMT", cteArrFmt), ("CTE.ARRPARSE", cteArrParse), ("CTE.ENGINE", cteEngine), ("CTE.ESCAPE", cteEscape), ("GRAPH.EMIT", graphEmit), ("STRUCT.EMIT", structEmit), ("STRUCT.LOOKUP", structLookup), ("LIT.NUM", litNum), ("LIT.ELEM", litElem), ("LIT.STR", litStr), ("COST.READ", costRead)]
 
 def splitArrow : List String → List String × String
   | [] => ([], "")
